@@ -244,9 +244,21 @@ def run_case(case):
             except P.Unorderable:
                 counters["unorderable"] = counters.get("unorderable", 0) + 1
                 continue
+            # (the value collections of 'in' / 'not in' go over as tuples, sets, arrays ... as well as lists)
+            aprog, n_other = FG.api_form(prog, k)
+            if n_other:
+                counters["programs_with_value_collections_other_than_lists"] = counters.get("programs_with_value_collections_other_than_lists", 0) + 1
             try:
-                got = pf.to_pandas(columns=ocols, filters=prog, row_filter=True, index=False)
-                cnt = int(pf.count(filters=prog, row_filter=True))
+                try:
+                    got = pf.to_pandas(columns=ocols, filters=aprog, row_filter=True, index=False)
+                    cnt = int(pf.count(filters=aprog, row_filter=True))
+                except (TypeError, ValueError):
+                    if not n_other:
+                        raise
+                    # a collection of that kind refused (raised, nothing wrong returned): the program is judged in its list form
+                    counters["value_collection_form_refused"] = counters.get("value_collection_form_refused", 0) + 1
+                    got = pf.to_pandas(columns=ocols, filters=prog, row_filter=True, index=False)
+                    cnt = int(pf.count(filters=prog, row_filter=True))
             except Exception as e:
                 counters["refused"] = counters.get("refused", 0) + 1
                 counters["refused:" + type(e).__name__] = counters.get("refused:" + type(e).__name__, 0) + 1
@@ -380,4 +392,5 @@ coverage_extra = c05.coverage_extra
 
 def required(tier):
     return {"programs_judged": 2000, "masks_compared": 300, "programs_with_partition_condition": 100, "flat_multi_condition_programs": 200,
-            "rows_selected": 5000, "kept_handle_edits": 30, "kept_handle_programs_judged": 200, "explicit_sub_unit_time_programs": 300}
+            "rows_selected": 5000, "kept_handle_edits": 30, "kept_handle_programs_judged": 200, "explicit_sub_unit_time_programs": 300,
+            "programs_with_value_collections_other_than_lists": 300}
